@@ -547,4 +547,62 @@ theorem leaf_metric_bernoulli (d x : Vec ℝ) (i j : Nat) (hi : i < d.length) (h
   rw [at2_diagM, if_pos ⟨hi, hj⟩, pullback_eq_metric_bernoulli _ h0 h1]
 
 
+/-! ### the gradient entries of the element-wise leaves of the list model are exact partial derivatives (every size) -/
+
+theorem leaf_grad_exact_poisson (d x : Vec ℝ) (j : Nat) (hj : j < d.length) (hjx : j < x.length) (hx : at1 x j ≠ 0) :
+    HasDerivAt (fun y => ((Leaf.poisson d).eval (x.set j y)).val) (at1 ((Leaf.poisson d).eval x).grad j) (at1 x j) := by
+  have hg : at1 ((Leaf.poisson d).eval x).grad j = poissonGrad (at1 x j) (at1 d j) := by
+    show at1 (tab (d.length) fun j => _) j = _
+    rw [at1_tab, if_pos hj]
+  rw [hg]
+  exact ptwLeaf_val_hasDerivAt (d.length) (fun k y => poissonE y (at1 d k)) _ x j hj hjx (E_hasDerivAt_poisson _ _ hx)
+
+theorem leaf_grad_exact_bernoulli (d x : Vec ℝ) (j : Nat) (hj : j < d.length) (hjx : j < x.length) (h0 : at1 x j ≠ 0) (h1 : 1 - at1 x j ≠ 0) :
+    HasDerivAt (fun y => ((Leaf.bernoulli d).eval (x.set j y)).val) (at1 ((Leaf.bernoulli d).eval x).grad j) (at1 x j) := by
+  have hg : at1 ((Leaf.bernoulli d).eval x).grad j = bernoulliGrad (at1 x j) (at1 d j) := by
+    show at1 (tab (d.length) fun j => _) j = _
+    rw [at1_tab, if_pos hj]
+  rw [hg]
+  exact ptwLeaf_val_hasDerivAt (d.length) (fun k y => bernoulliE y (at1 d k)) _ x j hj hjx (E_hasDerivAt_bernoulli _ _ h0 h1)
+
+theorem leaf_grad_exact_categorical (d x : Vec ℝ) (j : Nat) (hj : j < d.length) (hjx : j < x.length) (hx : at1 x j ≠ 0) :
+    HasDerivAt (fun y => ((Leaf.categorical d).eval (x.set j y)).val) (at1 ((Leaf.categorical d).eval x).grad j) (at1 x j) := by
+  have hg : at1 ((Leaf.categorical d).eval x).grad j = categoricalGrad (at1 x j) (at1 d j) := by
+    show at1 (tab (d.length) fun j => _) j = _
+    rw [at1_tab, if_pos hj]
+  rw [hg]
+  exact ptwLeaf_val_hasDerivAt (d.length) (fun k y => categoricalE y (at1 d k)) _ x j hj hjx (E_hasDerivAt_categorical _ _ hx)
+
+theorem leaf_grad_exact_student (θ x : Vec ℝ) (j : Nat) (hj : j < θ.length) (hjx : j < x.length) (hθ : 0 < at1 θ j) :
+    HasDerivAt (fun y => ((Leaf.student θ).eval (x.set j y)).val) (at1 ((Leaf.student θ).eval x).grad j) (at1 x j) := by
+  have hg : at1 ((Leaf.student θ).eval x).grad j = studentGrad (at1 θ j) (at1 x j) := by
+    show at1 (tab (θ.length) fun j => _) j = _
+    rw [at1_tab, if_pos hj]
+  rw [hg]
+  exact ptwLeaf_val_hasDerivAt (θ.length) (fun k y => studentE (at1 θ k) y) _ x j hj hjx (E_hasDerivAt_student _ _ hθ)
+
+theorem leaf_grad_exact_invGamma (α β x : Vec ℝ) (j : Nat) (hj : j < β.length) (hjx : j < x.length) (hx : at1 x j ≠ 0) :
+    HasDerivAt (fun y => ((Leaf.invGamma α β).eval (x.set j y)).val) (at1 ((Leaf.invGamma α β).eval x).grad j) (at1 x j) := by
+  have hg : at1 ((Leaf.invGamma α β).eval x).grad j = invGammaGrad (at1 α j) (at1 β j) (at1 x j) := by
+    show at1 (tab (β.length) fun j => _) j = _
+    rw [at1_tab, if_pos hj]
+  rw [hg]
+  exact ptwLeaf_val_hasDerivAt (β.length) (fun k y => invGammaE (at1 α k) (at1 β k) y) _ x j hj hjx (E_hasDerivAt_invGamma _ _ _ hx)
+
+theorem leaf_grad_exact_gaussDiag (w d x : Vec ℝ) (j : Nat) (hj : j < d.length) (hjx : j < x.length) :
+    HasDerivAt (fun y => ((Leaf.gaussDiag w d).eval (x.set j y)).val) (at1 ((Leaf.gaussDiag w d).eval x).grad j) (at1 x j) := by
+  have hg : at1 ((Leaf.gaussDiag w d).eval x).grad j = gaussGrad (at1 w j) (at1 x j) (at1 d j) := by
+    show at1 (tab (d.length) fun j => _) j = _
+    rw [at1_tab, if_pos hj]
+  rw [hg]
+  exact ptwLeaf_val_hasDerivAt (d.length) (fun k y => gaussE (at1 w k) y (at1 d k)) _ x j hj hjx (E_hasDerivAt_gauss _ _ _)
+
+theorem leaf_grad_exact_gaussNone (d x : Vec ℝ) (j : Nat) (hj : j < d.length) (hjx : j < x.length) :
+    HasDerivAt (fun y => ((Leaf.gaussNone d).eval (x.set j y)).val) (at1 ((Leaf.gaussNone d).eval x).grad j) (at1 x j) := by
+  have hg : at1 ((Leaf.gaussNone d).eval x).grad j = gaussGrad1 (at1 x j) (at1 d j) := by
+    show at1 (tab (d.length) fun j => _) j = _
+    rw [at1_tab, if_pos hj]
+  rw [hg]
+  exact ptwLeaf_val_hasDerivAt (d.length) (fun k y => gaussE1 y (at1 d k)) _ x j hj hjx (E_hasDerivAt_gauss1 _ _)
+
 end NiftyVerif.C11
